@@ -516,8 +516,12 @@ class C14(Check):
             # non-breaking: a fault confined to the first application must let the second one answer
             if fired and len(cfg['apps']) > 1 and clean_rel(rel):
                 hit_apps = set(w.app_index_of_path(p) for _, _, p in fired)
-                later = [c for c in cands if c[0] not in hit_apps and all(c[0] > h for h in hit_apps if h is not None)
-                         and not c[2].get('oddtime')]
+                # what a later application would serve: the FIRST of its search paths that has the file
+                first_of_app = {}
+                for c in cands:
+                    first_of_app.setdefault(c[0], c)
+                later = [c for ai_, c in sorted(first_of_app.items()) if ai_ not in hit_apps
+                         and all(ai_ > h for h in hit_apps if h is not None) and not c[2].get('oddtime')]
                 if later and len(op['faults']) == 1:
                     return res.violate(K + 'breaking-error@%s' % self.site(fired),
                                        ctx + ' -> %s although a later static application has the file' % ex.status)
